@@ -174,7 +174,7 @@ set_offset = Fn(
 let ghost inp = self.input@;
 let ghost k0 = choose|k: int| 0 <= k <= inp.len() && (offset == boff(inp, k) || (k == inp.len() && offset >= boff(inp, k)));
 proof {
-    axiom_utf8_bytes_len(self.input);
+    lemma_utf8_bytes_len(self.input);
     axiom_str_blen(self.input);
     lemma_boff_ends(inp);
     lemma_boff_mono(inp, k0, inp.len() as int);
@@ -183,19 +183,19 @@ proof {
         Ins('after_stmt', 'let offset = $_;', '''
 proof {
     assert(offset == boff(inp, k0));
-    axiom_utf8_boundary(self.input, k0);
-    axiom_utf8_boundary(self.input, inp.len() as int);
-    axiom_utf8_boundary(self.input, 0);
+    lemma_utf8_boundary(self.input, k0);
+    lemma_utf8_boundary(self.input, inp.len() as int);
+    lemma_utf8_boundary(self.input, 0);
 }
 '''),
         Replace('E6', 'self.char_indices = self.input[$r].char_indices();', '''{
     let __t0 = &self.input[$r];
-    proof { axiom_utf8_suffix_view(self.input, __t0, k0); }
+    proof { lemma_utf8_suffix_view(self.input, __t0, k0); }
     self.char_indices = __t0.char_indices();
 }''', why='method chain split to name the slice'),
         Replace('E6', 'self.last_char = self.input[$r].chars().next_back().unwrap_or($d);', '''{
     let __t1 = &self.input[$r];
-    proof { axiom_utf8_prefix_view(self.input, __t1, k0); }
+    proof { lemma_utf8_prefix_view(self.input, __t1, k0); }
     self.last_char = __t1.chars().next_back().unwrap_or($d);
 }''', why='method chain split to name the slice'),
         Ins('body_end', None, '''
@@ -354,16 +354,16 @@ ensures
 HAY_PROOF = '''
     proof {
         lemma_cur_cursor(*self);
-        axiom_utf8_boundary(self.input, m0);
-        axiom_utf8_boundary(self.input, inp.len() as int);
-        axiom_utf8_bytes_len(self.input);
+        lemma_utf8_boundary(self.input, m0);
+        lemma_utf8_boundary(self.input, inp.len() as int);
+        lemma_utf8_bytes_len(self.input);
         axiom_str_blen(self.input);
         lemma_boff_ends(inp);
         lemma_boff_mono(inp, m0, inp.len() as int);
     }
     let __hay = &self.input[$r];
     proof {
-        axiom_utf8_suffix_view(self.input, __hay, m0);
+        lemma_utf8_suffix_view(self.input, __hay, m0);
     }
 '''
 
@@ -497,7 +497,7 @@ proof {
     if n < inp.len() { lemma_ci_seq_step(inp, n, (boff(inp, n) - boff(inp, m0)) as nat); }
     assert(n == inp.len());
     lemma_boff_ends(inp);
-    axiom_utf8_bytes_len(self.input);
+    lemma_utf8_bytes_len(self.input);
     if self.last_char == '\\n' { assert(starts_line(inp, n)); lemma_line_start_byte(inp, n); }
 }
 let ghost lo_b = self.line_offsets@;
@@ -534,7 +534,7 @@ ensures
     props=['C11'],
     edits=[
         Ins('body_start', None, '''
-broadcast use axiom_clen_bounds;
+broadcast use lemma_clen_bounds;
 let ghost rem0 = (*char_indices).remaining();
 let ghost mut k: int = 0;
 proof { assert(rem0.skip(0) =~= rem0); }
@@ -557,7 +557,7 @@ ensures
     adv_k(rem0, matched.span.start as int, end as int, k),
 decreases (*char_indices).decrease()->0
 ''', body_pre='''
-broadcast use axiom_clen_bounds;
+broadcast use lemma_clen_bounds;
 '''),
         Ins('after', 'for (i, c) in char_indices {', '''
 proof {
@@ -661,14 +661,14 @@ decreases char_indices.decrease()->0
         Replace('E6', 'result = self.scanner_impl.peek_from(&self.input[$r], char_indices.clone());', '''
 {
     proof {
-        axiom_utf8_boundary(self.input, m0);
-        axiom_utf8_boundary(self.input, inp.len() as int);
-        axiom_utf8_bytes_len(self.input);
+        lemma_utf8_boundary(self.input, m0);
+        lemma_utf8_boundary(self.input, inp.len() as int);
+        lemma_utf8_bytes_len(self.input);
         lemma_boff_ends(inp);
         lemma_boff_mono(inp, m0, inp.len() as int);
     }
     let __hay = &self.input[$r];
-    proof { axiom_utf8_suffix_view(self.input, __hay, m0); }
+    proof { lemma_utf8_suffix_view(self.input, __hay, m0); }
     let __ci = char_indices.clone();
     let ghost sb = self.scanner_impl;
     let ghost rem = char_indices.remaining();
